@@ -123,8 +123,47 @@ def edges_across_namespaces(ctx):
     return len(docs)
 
 
+def default_edge_on_decorated_field(ctx):
+    """Default edges only for EDGE attributes: a non-edge attribute that carries a stray `object_type` property (extra
+    properties of an attribute are ignored) is still no edge, also when the promise given as default has exactly that
+    type and is fulfilled by an ancestor.  Control: the same document with the default on the real edge is accepted,
+    and the decorated attribute alone (no default edge) is accepted."""
+    import impl
+    docs = []
+    for ty in ("STRING", "NUMERIC", "BOOLEAN", "STRING_LIST", "NUMERIC_LIST", "BOOLEAN_LIST"):
+        for stray in ("object_type:0", "object_type:{Target}"):
+            for use in ("field", "edge", "none"):
+                holder = {"id": 5, "name": "Holder", "attributes": [{"name": "label", "type": "STRING"}, {"name": "link", "type": "EDGE", "object_type": "object_type:{Target}"},
+                                                                   {"name": "deco", "type": ty, "object_type": stray}]}
+                act = lambda i, **kw: dict({"id": i, "name": "act %d" % i, "object_promise": "object_promise:%d" % i, "description": "d", "party": "party:{P}",
+                                            "operation": {"include": ["label"]}}, **kw)
+                op = {"include": ["label"]}
+                if use != "none":
+                    op["default_edges"] = {("deco" if use == "field" else "link"): "object_promise:0"}
+                d = {"standard": "c07", "terms": [], "parties": [{"id": 0, "name": "P"}], "pipelines": [],
+                     "object_types": [{"id": 0, "name": "Target", "attributes": [{"name": "label", "type": "STRING"}]}, holder],
+                     "object_promises": [{"id": 0, "name": "target", "object_type": "object_type:0"}, {"id": 1, "name": "holder", "object_type": "object_type:{Holder}"}],
+                     "actions": [act(0), act(1, depends_on="checkpoint:0", operation=op)],
+                     "checkpoints": [{"id": 0, "alias": "first done", "description": "d", "dependencies": [
+                         {"compare": {"left": {"ref": "action:0.object_promise"}, "operator": "DOES_NOT_EQUAL", "right": {"value": None}}}]}],
+                     "thread_groups": []}
+                docs.append(("%s attribute with a stray object_type (%s), default edge on %s" % (ty, stray, use), d, use != "field"))
+    pool = impl.Pool(ctx, 4)
+    res = pool.validate_many([d for _, d, _ in docs])
+    pool.close()
+    bad = 0
+    for (what, d, ok), r in zip(docs, res):
+        if (r["outcome"] == "accept") != ok and bad < 3:
+            bad += 1
+            ctx.violation({"what": ("a default edge for a non-edge attribute is accepted: " if not ok else "a conformant operation is not accepted: ") + what,
+                           "document": d, "implementation": r})
+    ctx.coverage["default_edge_on_decorated_field"] = {"documents": len(docs), "accepted": sum(1 for r in res if r["outcome"] == "accept")}
+    return len(docs)
+
+
 def run(ctx):
     edges_across_namespaces(ctx)
+    default_edge_on_decorated_field(ctx)
     scen_check.scenario_check(
         ctx, owners=OWNERS, n_valid=60, n_mut=260, extra=lambda c, r: settable_family(c, r) + families.guaranteed_family(r), prop_files=PROP_FILES,
         rule="conformant scenarios (half with thread groups, two renderings each), single-fault mutants owned by C07, the guaranteed-ancestry family (5 gate types x 4 x 4 branch shapes incl. diamonds through a shared nested checkpoint), and the settable family: owner action shape (plain / threaded without, with own, with the group's repeated checkpoint) x editor present x 7 operation forms, with an action appending to the owner's edge collection; distinct by abstract scenario",
